@@ -104,3 +104,176 @@ func H_C19_query(t *verifrt.T) {
 	full, err2 := Marshal(v)
 	t.Assert("unfiltered-still-complete", verifrt.And(err2 == nil, len(full) >= len(out)))
 }
+
+// ---------------------------------------------------------------- nested kinds
+
+type vqN struct {
+	X int    `json:"x"`
+	C string `json:"c"` // shares its name with a top-level field
+}
+
+// context-aware marshaler that encodes itself through MarshalContext (the
+// documented way for a custom marshaler to take part in field queries)
+type vqM struct {
+	X int    `json:"x"`
+	C string `json:"c"`
+}
+
+type vqMPlain vqM
+
+func (m *vqM) MarshalJSON(ctx context.Context) ([]byte, error) {
+	if ctx == nil {
+		// plain Marshal hands a nil context to context-aware marshalers
+		ctx = context.Background()
+	}
+	return MarshalContext(ctx, (*vqMPlain)(m))
+}
+
+type vqIn2 struct {
+	A  int  `json:"a"`
+	In vqN  `json:"in"`
+	C  bool `json:"c"`
+}
+type vqPtr struct {
+	A  int  `json:"a"`
+	In *vqN `json:"in"`
+	C  bool `json:"c"`
+}
+type vqSlice struct {
+	A  int   `json:"a"`
+	In []vqN `json:"in"`
+	C  bool  `json:"c"`
+}
+type vqMap struct {
+	A  int            `json:"a"`
+	In map[string]vqN `json:"in"`
+	C  bool           `json:"c"`
+}
+type vqIface struct {
+	A  int         `json:"a"`
+	In interface{} `json:"in"`
+	C  bool        `json:"c"`
+}
+type vqMarsh struct {
+	A  int  `json:"a"`
+	In *vqM `json:"in"`
+	C  bool `json:"c"`
+}
+
+func init() {
+	VerifHarnesses["H_C19_kinds"] = H_C19_kinds
+}
+
+// c19Build: the query selecting subset sel of {a, in, c} with sub-selection sub
+// of the nested fields {x, c} (0 = whole member), optionally with names that do
+// not exist, and the reference projection for nested kind k.
+func c19Build(k, sel, sub int, ghost bool, a int64) (*FieldQuery, []byte) {
+	q := &FieldQuery{}
+	b := []byte{'{'}
+	sep := func() {
+		if len(b) > 1 {
+			b = append(b, ',')
+		}
+	}
+	nested := func(b []byte) []byte {
+		b = append(b, '{')
+		if sub == 0 || sub&1 != 0 {
+			b = append(b, `"x":5`...)
+		}
+		if sub == 0 || sub&2 != 0 {
+			if sub != 2 {
+				b = append(b, ',')
+			}
+			b = append(b, `"c":"r"`...)
+		}
+		return append(b, '}')
+	}
+	if sel&1 != 0 {
+		q.Fields = append(q.Fields, &FieldQuery{Name: "a"})
+		sep()
+		b = append(b, `"a":`...)
+		b = refInt(b, a)
+	}
+	if ghost {
+		q.Fields = append(q.Fields, &FieldQuery{Name: "nope"})
+	}
+	if sel&2 != 0 {
+		in := &FieldQuery{Name: "in"}
+		if sub&1 != 0 {
+			in.Fields = append(in.Fields, &FieldQuery{Name: "x"})
+		}
+		if ghost && sub != 0 {
+			in.Fields = append(in.Fields, &FieldQuery{Name: "a"}) // exists one level up only
+		}
+		if sub&2 != 0 {
+			in.Fields = append(in.Fields, &FieldQuery{Name: "c"})
+		}
+		q.Fields = append(q.Fields, in)
+		sep()
+		b = append(b, `"in":`...)
+		switch k {
+		case 2: // slice of two
+			b = append(b, '[')
+			b = nested(b)
+			b = append(b, ',')
+			b = nested(b)
+			b = append(b, ']')
+		case 3: // map with one key
+			b = append(b, `{"k":`...)
+			b = nested(b)
+			b = append(b, '}')
+		default:
+			b = nested(b)
+		}
+	}
+	if sel&4 != 0 {
+		q.Fields = append(q.Fields, &FieldQuery{Name: "c"})
+		sep()
+		b = append(b, `"c":true`...)
+	}
+	return q, append(b, '}')
+}
+
+func c19Value(k int, a int64) interface{} {
+	n := vqN{X: 5, C: "r"}
+	switch k {
+	case 0:
+		return &vqIn2{A: int(a), In: n, C: true}
+	case 1:
+		return &vqPtr{A: int(a), In: &n, C: true}
+	case 2:
+		return &vqSlice{A: int(a), In: []vqN{n, n}, C: true}
+	case 3:
+		return &vqMap{A: int(a), In: map[string]vqN{"k": n}, C: true}
+	case 4:
+		return &vqIface{A: int(a), In: n, C: true}
+	}
+	return &vqMarsh{A: int(a), In: &vqM{X: 5, C: "r"}, C: true}
+}
+
+// Field queries through every nested kind (struct, pointer, slice, map,
+// interface, context-aware marshaler; KIND selects one): every subset of
+// {a, in, c} x every sub-selection of the nested {x, c} (none = whole member)
+// x names that do not exist, after every other query of the same family (or
+// the unfiltered encoding, or nothing) was used on the same type.
+func H_C19_kinds(t *verifrt.T) {
+	k := t.Param("KIND")
+	a := smallInt(t, "a")
+	v := c19Value(k, a)
+	q, want := c19Build(k, t.Choice("subset", 8), t.Choice("in-subset", 4), t.Choice("ghost", 2) == 1, a)
+	switch h := t.Choice("history", 34); {
+	case h == 1:
+		Marshal(v) // request order: the unfiltered program first
+	case h >= 2:
+		// another query of the family on the same type first
+		other, _ := c19Build(k, (h-2)/4, (h-2)%4, false, a)
+		MarshalContext(SetFieldQueryToContext(context.Background(), other), v)
+	}
+	out, err := MarshalContext(SetFieldQueryToContext(context.Background(), q), v)
+	t.Assert("marshal-succeeds", err == nil)
+	t.ObserveBytes("out", out)
+	t.Assert("projects-exactly-the-selected-fields", verifref.BytesEq(out, want))
+	full, err2 := Marshal(v)
+	_, wantFull := c19Build(k, 7, 0, false, a)
+	t.Assert("unfiltered-still-complete", verifrt.And(err2 == nil, verifref.BytesEq(full, wantFull)))
+}
